@@ -229,3 +229,24 @@ benign("C15.b-prologue-helper", "C15", G,
                "        self._reset_error_state()\n"),
               ("    def _find_lookaheads(self):\n", "    def _reset_error_state(self):\n        self.errors = []\n        self._in_error_reporting = False\n        self._expected = set()\n        self._tokens_ahead = []\n        self._last_shifted_heads = []\n        self._for_shifter = []\n\n    def _find_lookaheads(self):\n")])
 benign("C15.b-try-finally", "C15", T, "    grammar.productions[0].rhs = _old_start_production_rhs\n    table = LRTable(states, **kwargs)", "    grammar.productions[0].rhs = _old_start_production_rhs\n    table = LRTable(states, **kwargs)\n    assert grammar.productions[0].rhs is _old_start_production_rhs")
+
+# ---------------------------------------------------------------- C09
+A = "parglare/actions.py"
+fault("C09.deferred-opt-not-none", "C09", P, "                                assgn_results[a.name] = bool(subresults[a.index])\n                    if isinstance(sem_action, list):\n                        if assignments:\n                            result = sem_action[node.production.prod_symbol_id](",
+      "                                assgn_results[a.name] = subresults[a.index] is not None\n                    if isinstance(sem_action, list):\n                        if assignments:\n                            result = sem_action[node.production.prod_symbol_id](", "R09.siblings")
+fault("C09.no-reverse", "C09", P, "                subresults.reverse()\n", "", "R09.siblings")
+fault("C09.prod-id", "C09", P, "                    result = sem_action[production.prod_symbol_id](context, subresults)", "                    result = sem_action[production.prod_id](context, subresults)", "R09.siblings")
+fault("C09.eq-bool", "C09", P, "                    if a.op == \"=\":\n                        assgn_results[a.name] = subresults[a.index]\n                    else:\n                        assgn_results[a.name] = bool(subresults[a.index])\n\n            if isinstance",
+      "                    if a.op == \"=\":\n                        assgn_results[a.name] = bool(subresults[a.index])\n                    else:\n                        assgn_results[a.name] = bool(subresults[a.index])\n\n            if isinstance", "R09.siblings")
+fault("C09.single-unwrap-deferred", "C09", P, "result = subresults[0] if len(subresults) == 1 else subresults", "result = subresults[0] if len(subresults) >= 1 else subresults", "R09.siblings")
+fault("C09.term-no-additional", "C09", P, "            result = sem_action(context, token.value, *token.additional_data)\n\n        else:", "            result = sem_action(context, token.value)\n\n        else:", "R09.terminals")
+fault("C09.alt-adjacent", "C09", GR, "            prod.prod_symbol_id = idx_per_symbol.get(prod.symbol, 0)\n", "            prod.prod_symbol_id = idx - first_idx.setdefault(prod.symbol, idx)\n", "R09.alt-index",
+      edits=[("            prod.prod_symbol_id = idx_per_symbol.get(prod.symbol, 0)\n", "            prod.prod_symbol_id = idx - first_idx.setdefault(prod.symbol, idx)\n"),
+             ("        idx_per_symbol = {}\n", "        idx_per_symbol = {}\n        first_idx = {}\n")])
+fault("C09.collect-sep-falsy", "C09", A, "    e1, _, e2 = nodes\n    if e2 is not None:", "    e1, _, e2 = nodes\n    if e2:", "R09.builtins")
+fault("C09.collect-both-falsy", "C09", A, "    if e2 is not None:", "    if e2:", "R09.builtins", count=2)
+fault("C09.optional-swap", "C09", A, "optional = [pass_single, pass_none]", "optional = [pass_none, pass_single]", "R09.builtins")
+fault("C09.tree-no-reversed", "C09", TR, "    def __reversed__(self):\n        return reversed(self.children or [])\n\n", "", "R09.protocol")
+fault("C09.index-from-named", "C09", GR, "        for idx, a in enumerate(assignments):\n            if a.name:\n                a.index = idx", "        for idx, a in enumerate([x for x in assignments if x.name]):\n            if a.name:\n                a.index = idx", "R09.alt-index")
+benign("C09.b-ternary", "C09", P, "            if len(subresults) == 1:\n                if debug:\n                    h_print(\"Unpacking a single subresult.\", level=1)\n                result = subresults[0]\n            else:\n                if debug:\n                    h_print(\"Result is a list of subresults.\", level=1)\n                result = subresults",
+       "            result = subresults[0] if len(subresults) == 1 else subresults")
